@@ -217,6 +217,28 @@ impl FilesystemStoreState {
 	}
 }
 
+#[cfg(ldk_verif)]
+impl FilesystemStoreV2 {
+	/// Verification hook: the number of entries of the per-path lock map.
+	pub fn verif_state_size(&self) -> usize {
+		self.inner.verif_state_size()
+	}
+
+	/// Verification hook: the synchronous half of the asynchronous `write` (takes the version).
+	pub fn verif_prepare_write(
+		&self, primary_namespace: &str, secondary_namespace: &str, key: &str, buf: Vec<u8>,
+	) -> Result<crate::verif::VerifPrepared, lightning::io::Error> {
+		self.inner.verif_prepare_write(primary_namespace, secondary_namespace, key, buf, true)
+	}
+
+	/// Verification hook: the synchronous half of the asynchronous `remove` (takes the version).
+	pub fn verif_prepare_remove(
+		&self, primary_namespace: &str, secondary_namespace: &str, key: &str, lazy: bool,
+	) -> Result<crate::verif::VerifPrepared, lightning::io::Error> {
+		self.inner.verif_prepare_remove(primary_namespace, secondary_namespace, key, lazy, true)
+	}
+}
+
 impl KVStoreSync for FilesystemStoreV2 {
 	fn read(
 		&self, primary_namespace: &str, secondary_namespace: &str, key: &str,
